@@ -1,11 +1,20 @@
 """C06 - scoring and least-squares refinement kernels match their mathematical definition.
 
-spec: ScoreRefine.tla - exact dyadic cases (UBI = D.M, g = UB(h + d/64)), loop body as an action, expectations
-(n, sum of squared errors, R, H, det H) as integers.  Mode A: every emitted case is executed on
+spec: ScoreRefine.tla - exact dyadic cases (UBI = 2^S.D.M, g = UB(h + d/64)), loop body as an action, expectations
+(n, sum of squared errors, R, H, X = sum (64h+d) h^T, det H) as integers.  Mode A: every emitted case is executed on
 cImageD11.score / score_and_refine / refine_assigned and the Python references indexing.calc_drlv2 / refine /
-indexer.refine / refinegrains.refine(triclinic), also tiled across the 4096 OpenMP chunk size; counts must be
+refinegrains.refine(triclinic), also tiled across the 4096 OpenMP chunk size; counts must be
 equal, the refined matrix must equal inverse(R H^-1) formed in exact fractions, singular normal equations must
 leave the matrix bit-for-bit unchanged.
+
+Scale: two TLC runs per tier.  The main run (ScoreRefine_q/_t.cfg) enumerates every peak list of the 10-peak pool at
+S = 0; the scale run (ScoreRefine_sq/_st.cfg) enumerates the scale family SCALES (isotropic cells 1 A .. 4096 A,
+long-axis / plate-like cells, g-vectors 2^+-33 and 2^+-100 away from 1/A) over a 7-peak pool.  TLC's integers never
+see 2^S: the specification's laws (Covariant: R = UB.X/64 by linearity, so UBI_fit = 64 H X^-1 . UBI at every scale)
+make the emitted scale-free (n, ss, X, H) the expectation at every S; here g = M^-1 (2^S D)^-1 (64h+d)/64 and
+R = sum g h^T are formed in exact integer arithmetic for the instance's S (R = UB.X/64 re-checked there), and a seeded
+share of the main run's cases is replayed at a scale drawn from the same family.  The matrix comparison is relative
+to the largest element of the expected matrix (no absolute floor: cells of 1e-30 and 1e+30 are judged alike).
 """
 import os, sys, json, io, contextlib, time
 from fractions import Fraction as F
@@ -37,21 +46,22 @@ def fmul(a, b):
     return [[sum(F(a[i][k]) * F(b[k][j]) for k in range(3)) for j in range(3)] for i in range(3)]
 
 
-def expected_ubi(R512, H):
-    """inverse(R H^-1) exactly; None when the normal equations (or the fitted UB) are singular"""
+def expected_ubi(R, H):
+    """inverse(R H^-1) exactly (R a matrix of Fractions); "singular" when the normal equations are singular (the
+    property: matrix unchanged), "degenerate" when H is regular but the fitted UB = R H^-1 is not invertible (the
+    property does not say what is returned then: nothing is demanded of the matrix)"""
     hi = frac_inv(H)
     if hi is None:
-        return None
-    ub = fmul([[F(x, 512) for x in row] for row in R512], hi)
-    ubi = frac_inv(ub)
-    return ubi
+        return "singular"
+    ubi = frac_inv(fmul(R, hi))
+    return "degenerate" if ubi is None else ubi
 
 
 def close(a, e, rel=1e-9):
     a = np.asarray(a, float)
     e = np.array([[float(x) for x in row] for row in e]) if not isinstance(e, np.ndarray) else e
-    scale = max(1.0, np.abs(e).max())
-    return np.all(np.abs(a - e) <= rel * scale + 1e-12)
+    scale = np.abs(e).max()          # no absolute floor: the comparison must not depend on the unit of the cell
+    return bool(np.all(np.abs(a - e) <= (rel + 1e-12) * scale))
 
 
 def reltol(H, R):
@@ -94,67 +104,132 @@ class Routes(object):
         self.refinegrains = refinegrains
 
 
+def adj_int(m):
+    c = [[0] * 3 for _ in range(3)]
+    for i in range(3):
+        for j in range(3):
+            a, b = [r for r in range(3) if r != i], [r for r in range(3) if r != j]
+            c[j][i] = (-1) ** (i + j) * (m[a[0]][b[0]] * m[a[1]][b[1]] - m[a[0]][b[1]] * m[a[1]][b[0]])
+    return c
+
+
+def det_int(M):
+    return (M[0][0] * (M[1][1] * M[2][2] - M[1][2] * M[2][1]) - M[0][1] * (M[1][0] * M[2][2] - M[1][2] * M[2][0])
+            + M[0][2] * (M[1][0] * M[2][1] - M[1][1] * M[2][0]))
+
+
+class Cell(object):
+    """UBI = 2^S.D.M and UB = M^-1 (2^S D)^-1 of one instance, exactly: g = UB (64h + d)/64 = Mi . diag(2^-E) . x with
+    the integer matrix Mi = M^-1 and E_k = S_k + log2 D_k + 6; every g is num * 2^-emax with a python integer num."""
+
+    def __init__(self, case, S=None):
+        self.M = [[int(x) for x in r] for r in case["M"]]
+        self.D = [int(x) for x in case["D"]]
+        self.S = [int(x) for x in (case.get("S", [0, 0, 0]) if S is None else S)]
+        d = det_int(self.M)
+        if d not in (1, -1) or any(x not in (1, 2, 4, 8) for x in self.D):
+            raise common.MachineryError("case outside the specification: M %s D %s" % (self.M, self.D))
+        self.Mi = [[d * x for x in r] for r in adj_int(self.M)]
+        self.E = [self.S[k] + self.D[k].bit_length() - 1 + 6 for k in range(3)]
+        self.emax = max(self.E)
+        self.W = [1 << (self.emax - e) for e in self.E]                 # 2^(emax - E_k)
+        # UBI in binary64: powers of two times small integers (exact)
+        self.ubi = np.array([[float(np.ldexp(float(self.D[i] * self.M[i][j]), self.S[i])) for j in range(3)]
+                             for i in range(3)])
+        self.ubi_frac = [[F(self.D[i] * self.M[i][j]) * F(2) ** self.S[i] for j in range(3)] for i in range(3)]
+
+    def gnum(self, x):
+        return [sum(self.Mi[i][k] * self.W[k] * x[k] for k in range(3)) for i in range(3)]
+
+    def tofloat(self, num):
+        f = float(num)
+        if int(f) != num:
+            raise common.MachineryError("g-vector numerator %d is not a binary64 number" % num)
+        return float(np.ldexp(f, -self.emax))
+
+    def R_from_X(self, X):
+        """R = UB.X/64 as Fractions (the specification's law Covariant at this instance's scale)"""
+        s = F(2) ** (-self.emax)
+        return [[s * sum(self.Mi[i][k] * self.W[k] * int(X[k][j]) for k in range(3)) for j in range(3)] for i in range(3)]
+
+
 def scaled_case(case, hs):
-    """the same case with every hkl multiplied by the integer hs (offsets d unchanged): the specification's
-    definitions (R = sum g h^T, H = sum h h^T over the selected / labelled peaks) re-evaluated in python integers,
+    """the same case with every hkl multiplied by the integer hs (offsets d unchanged): the specification's scale-free
+    definitions (X = sum x h^T, H = sum h h^T over the selected / labelled peaks) re-evaluated in python integers,
     because |h| ~ 1e3 x 1e5 peaks does not fit TLC's 32-bit integers.  Selection flags do not change."""
-    M = [[int(x) for x in r] for r in case["M"]]
-    D = [int(x) for x in case["D"]]
-    # 512 UB = M^-1 diag(8/D) 64  (integer): adjugate / det, det = +-1
-    def adj(m):
-        c = [[0] * 3 for _ in range(3)]
-        for i in range(3):
-            for j in range(3):
-                a, b = [r for r in range(3) if r != i], [r for r in range(3) if r != j]
-                c[j][i] = (-1) ** (i + j) * (m[a[0]][b[0]] * m[a[1]][b[1]] - m[a[0]][b[1]] * m[a[1]][b[0]])
-        return c
-    det = (M[0][0] * (M[1][1] * M[2][2] - M[1][2] * M[2][1]) - M[0][1] * (M[1][0] * M[2][2] - M[1][2] * M[2][0])
-           + M[0][2] * (M[1][0] * M[2][1] - M[1][1] * M[2][0]))
-    Mi = [[det * x for x in r] for r in adj(M)]
     out = dict(case)
     pk = []
-    R = [[0] * 3 for _ in range(3)]
+    X = [[0] * 3 for _ in range(3)]
     H = [[0] * 3 for _ in range(3)]
-    Rl = [[0] * 3 for _ in range(3)]
+    Xl = [[0] * 3 for _ in range(3)]
     Hl = [[0] * 3 for _ in range(3)]
     for p in case["peaks"]:
         h = [hs * int(x) for x in p["h"]]
         x = [64 * h[i] + int(p["d"][i]) for i in range(3)]
-        y = [(8 // D[i]) * x[i] for i in range(3)]
-        g = [sum(Mi[i][k] * y[k] for k in range(3)) for i in range(3)]
-        pk.append(dict(p, h=h, g512=g))
-        for (sel, RR, HH) in ((p["sel"], R, H), (p["lab"], Rl, Hl)):
+        q = dict(p, h=h)
+        q.pop("g512", None)
+        pk.append(q)
+        for (sel, XX, HH) in ((p["sel"], X, H), (p["lab"], Xl, Hl)):
             if sel:
                 for i in range(3):
                     for j in range(3):
-                        RR[i][j] += g[i] * h[j]
+                        XX[i][j] += x[i] * h[j]
                         HH[i][j] += h[i] * h[j]
-    out.update(peaks=pk, R=R, H=H, Rl=Rl, Hl=Hl)
-    dH = frac_inv(H)
-    out["detH"] = 0 if dH is None else 1
+    out.update(peaks=pk, X=X, H=H, Xl=Xl, Hl=Hl)
+    out.pop("R", None)
+    out.pop("Rl", None)
+    out["detH"] = 0 if frac_inv(H) is None else 1
     return out
 
 
-def judge(case, rt, reps=1, perturb=None):
-    """returns list of problems for one emitted case, peak list tiled `reps` times"""
+def sum_outer(cell, pk, key):
+    """the property's definition, literally: R = sum g h^T over the peaks flagged `key`, as exact Fractions"""
+    R = [[0] * 3 for _ in range(3)]
+    for p in pk:
+        if p[key]:
+            for i in range(3):
+                for j in range(3):
+                    R[i][j] += p["gnum"][i] * int(p["h"][j])
+    s = F(2) ** (-cell.emax)
+    return [[s * x for x in row] for row in R]
+
+
+def judge(case, rt, reps=1, perturb=None, S=None):
+    """returns list of problems for one emitted case, peak list tiled `reps` times, at the case's scale S (or at the
+    given one: the expectations n, ss, X, H do not depend on it)"""
     c = rt.c
-    M = np.array(case["M"], float)
-    D = np.array(case["D"], float)
-    ubi = (np.diag(D) @ M).astype(float)
+    cell = Cell(case, S)
+    ubi = cell.ubi
     tol = case["tol"] / 64.0
-    pk = case["peaks"]
+    pk = [dict(p) for p in case["peaks"]]
     probs = []
     npk = len(pk)
     n_exp = case["n"] * reps
     if npk == 0:
         return probs             # f2py wrappers reject zero-length peak lists (the empty selection is npk>0, n=0)
-    gv1 = np.array([p["g512"] for p in pk], float) / 512.0
+    for p in pk:
+        p["gnum"] = cell.gnum([64 * int(p["h"][i]) + int(p["d"][i]) for i in range(3)])
+    gv1 = np.array([[cell.tofloat(v) for v in p["gnum"]] for p in pk], float)
     gv = np.ascontiguousarray(np.tile(gv1, (reps, 1)))
+    # --- the python formulas against TLC's integers (g = G512/512, R = sum G512 h^T at S = 0) and the law R = UB.X/64
+    R = sum_outer(cell, pk, "sel")
+    Rl = sum_outer(cell, pk, "lab")
+    if R != cell.R_from_X(case["X"]) or Rl != cell.R_from_X(case["Xl"]):
+        raise common.MachineryError("R = UB.X/64 fails at S=%s: %s" % (cell.S, case))
+    if "R" in case and pk and "g512" in pk[0]:
+        c0 = Cell(case, [0, 0, 0])
+        for p in pk:
+            if [F(v, 512) for v in p["g512"]] != [F(v, 1 << c0.emax) for v in
+                                                 c0.gnum([64 * int(p["h"][i]) + int(p["d"][i]) for i in range(3)])]:
+                raise common.MachineryError("g-vector formula differs from the specification's G512: %s" % (p,))
+        for key in ("R", "Rl"):
+            if [[F(v, 512) for v in r] for r in case[key]] != c0.R_from_X(case["X" if key == "R" else "Xl"]):
+                raise common.MachineryError("specification's %s differs from UB.X/64" % key)
     # --- the construction itself: UBI.g = h + d/64 exactly in binary64
     hk = gv1 @ ubi.T
     want = np.array([p["h"] for p in pk], float) + np.array([p["d"] for p in pk], float) / 64.0
     if not np.array_equal(hk, want):
-        raise common.MachineryError("dyadic construction not exact: %s vs %s" % (hk.tolist(), want.tolist()))
+        raise common.MachineryError("dyadic construction not exact at S=%s: %s vs %s" % (cell.S, hk.tolist(), want.tolist()))
     if perturb == "count":
         n_exp += 1
     # --- score
@@ -174,16 +249,18 @@ def judge(case, rt, reps=1, perturb=None):
     exp_mean = (case["ss"] / 4096.0 / case["n"]) if case["n"] else 0.0
     if abs(s2 - exp_mean) > 1e-12 * max(1.0, exp_mean):
         probs.append("score_and_refine: mean squared error %r, definition %r" % (s2, exp_mean))
-    detH = case["detH"]
-    R = [[x * reps for x in row] for row in case["R"]]
+    R = [[x * reps for x in row] for row in R]
     H = [[x * reps for x in row] for row in case["H"]]
     eu = expected_ubi(R, H)
-    if perturb == "matrix" and eu is not None:
-        eu = [[x + (F(1, 1000) if (i, j) == (0, 1) else 0) for j, x in enumerate(row)] for i, row in enumerate(eu)]
-    if eu is None:
+    if perturb == "matrix" and not isinstance(eu, str):
+        eu = [[x * (1 + (F(1, 1000) if (i, j) == (0, 1) else 0)) + (F(1, 1000) * eu[0][0] if (i, j) == (0, 1) else 0)
+               for j, x in enumerate(row)] for i, row in enumerate(eu)]
+    if perturb == "unchanged" and not isinstance(eu, str):
+        u = ubi.copy()           # what a kernel that wrongly takes the "singular" branch hands back
+    if eu == "singular":
         if not np.array_equal(u, ubi):
             probs.append(singular_changed(None, "score_and_refine", H, u))
-    else:
+    elif eu != "degenerate":
         if not close(u, eu, reltol(H, R)):
             probs.append("score_and_refine: refined matrix %s differs from inverse(R H^-1) = %s" % (
                 u.tolist(), [[float(x) for x in r] for r in eu]))
@@ -197,25 +274,26 @@ def judge(case, rt, reps=1, perturb=None):
     exp3 = (case["ssl"] / 4096.0 / case["nl"]) if case["nl"] else 0.0
     if abs(s3 - exp3) > 1e-12 * max(1.0, exp3):
         probs.append("refine_assigned: mean squared error %r, definition %r" % (s3, exp3))
-    Rl = [[x * reps for x in row] for row in case["Rl"]]
+    Rl = [[x * reps for x in row] for row in Rl]
     Hl = [[x * reps for x in row] for row in case["Hl"]]
     eul = expected_ubi(Rl, Hl)
-    if eul is None:
+    if eul == "singular":
         if not np.array_equal(u3, ubi):
             probs.append(singular_changed(None, "refine_assigned", Hl, u3))
-    elif not close(u3, eul, reltol(Hl, Rl)):
+    elif eul != "degenerate" and not close(u3, eul, reltol(Hl, Rl)):
         probs.append("refine_assigned: fitted matrix %s differs from inverse(R H^-1) = %s" % (
             u3.tolist(), [[float(x) for x in r] for r in eul]))
     # --- Python references for the refinement (only when at least one peak is selected: they raise otherwise)
     if reps == 1 and case["n"] > 0:
+        regular = not isinstance(eu, str)
         with contextlib.redirect_stdout(io.StringIO()), contextlib.redirect_stderr(io.StringIO()):
             try:
                 ur = rt.indexing.refine(ubi.copy(), gv, tol)
             except Exception as ex:          # noqa
                 ur = None
-                if eu is not None:
+                if regular:
                     probs.append("indexing.refine raised %r on a regular case" % (ex,))
-        if ur is not None and eu is not None and not close(ur, eu, reltol(H, R)):
+        if ur is not None and regular and not close(ur, eu, reltol(H, R)):
             probs.append("indexing.refine: %s differs from inverse(R H^-1)" % np.asarray(ur).tolist())
         # refinegrains.refine with triclinic symmetry = two passes of score_and_refine; first pass result is judged
         try:
@@ -223,18 +301,20 @@ def judge(case, rt, reps=1, perturb=None):
             rg.gv = gv
             with contextlib.redirect_stdout(io.StringIO()):
                 m = rg.refine(ubi.copy())
-            if rg.npks is None:
-                pass
             # after the second pass the count refers to the refined matrix; recompute its definition
-            if eu is not None:
-                e2 = np.array([[float(x) for x in r] for r in eu])
-                d2 = rt.indexing.calc_drlv2(m, gv)
+            if regular:
                 # definition of the returned pair for matrix `m1` (first-pass result)
                 u1 = ubi.copy()
                 c.score_and_refine(u1, gv, tol)
                 n_ref = int((rt.indexing.calc_drlv2(u1, gv) < tol * tol).sum())
                 if rg.npks != n_ref:
                     probs.append("refinegrains.refine: npks=%d, reference count for the first-pass matrix %d" % (rg.npks, n_ref))
+                # the matrix it returns is the fit over the peaks the first-pass matrix selects; when those are the
+                # peaks selected at the start, fitting again changes nothing beyond rounding: compare with the definition
+                sel0 = np.array([bool(p["sel"]) for p in pk])
+                if np.array_equal(rt.indexing.calc_drlv2(np.array([[float(x) for x in r] for r in eu]), gv) < tol * tol, sel0) \
+                        and not close(m, eu, max(1e-6, reltol(H, R))):
+                    probs.append("refinegrains.refine: returned matrix %s differs from inverse(R H^-1)" % np.asarray(m).tolist())
         except Exception as ex:              # noqa
             probs.append("refinegrains.refine raised %r" % (ex,))
     return probs
